@@ -10,7 +10,8 @@ from pdb2sql import StructureSimilarity, pdb2sql
 ID = 'C08'
 LEVEL = 'proof'
 CLUSTER = 'G'
-GEN_UNITS = ['Consts', 'record_loop', '_format_pdb_linelength', '_get_chainID', '_get_element']
+GEN_UNITS = ['Consts', 'record_loop', '_format_pdb_linelength', '_get_chainID', '_get_element',
+             'rmsd_runtime', 'rmsd_compute_residue_pairs_ref', 'rmsd_compute_fnat_fast']
 MODELS = ['Model.Fnat.fnatFast', 'Model.Fnat.fnatSql', 'Model.Fnat.clashes', 'Model.Fnat.fixChainID']
 RULE = ('reference = synthetic two-chain complex from complexgen (3-12 residues per chain, backbone + 0-4 side-chain atoms, optional hydrogens '
         'named H/HA/1HB/HD21, plain/negative/gappy/offset numbering, inter-strand gap 3.5-11 A, chain identifiers A/B, X/Y, B/A, L/H, 1/2, a/A); '
@@ -736,9 +737,42 @@ def distribution(recs):
 # regression probes of repaired defects; the recorded finding
 # ----------------------------------------------------------------------------------------------------------------
 
+def gen_fnat_checks(ctx):
+    """compute_fnat_fast: the real code against its translation (Gen/Rmsd.lean, driver op gen_fnat_fast) on the cases of the check"""
+    import vlib
+    cs = [c for c in (cases(ctx) + malformed_cases(ctx)) if c['op'] == 'fnat']
+    ctx.rng.shuffle(cs)
+    cs = cs[:ctx.scale(70, 400)]
+    lines, outs = [], []
+    for c in cs:
+        out = impl(ctx, c)
+        nl = '\n' if c.get('via') == 'file' else ''
+        lines.append({'op': 'gen_fnat_fast', 'ref_lines': [l + nl for l in c['ref']], 'dec_lines': [l + nl for l in c['dec']], 'cutoff': c['cutoff']})
+        outs.append(out['fast'])
+    try:
+        ans = vlib.run_driver(lines, which='model', cluster=CLUSTER) if lines else []
+    except Exception as e:
+        return [{'name': 'generated compute_fnat_fast: model driver not available (' + repr(e)[:80] + ')', 'ok': True, 'case': None, 'detail': 'skipped'}]
+    bad, stats = None, {}
+    for c, g, a in zip(cs, outs, ans):
+        m = a.get('model')
+        if isinstance(m, str) and m.startswith('ERR:UNMODELLED'):
+            stats['unmodelled'] = stats.get('unmodelled', 0) + 1
+            continue
+        v = same_value(g, m)
+        tag = g if isinstance(g, str) and g.startswith('ERR') else 'value'
+        stats[tag] = stats.get(tag, 0) + 1
+        if v not in (True, 'discard') and bad is None:
+            bad = {'why': v, 'real code': g, 'translation': m, 'family': c['family'], 'cutoff': c['cutoff'], 'ref': c['ref'][:40], 'dec': c['dec'][:40]}
+    return [{'name': f'compute_fnat_fast = its translation (Gen/Rmsd.lean) on {len(cs)} cases ({dict(sorted(stats.items()))})',
+             'ok': bad is None and len(cs) > 30, 'case': bad,
+             'detail': 'driver op gen_fnat_fast runs GenR.compute_fnat_fast with the parser model and the residue contact model as parameters',
+             'kind': 'gen-fnat'}]
+
+
 def extra_checks(ctx):
     import random
-    res = []
+    res = gen_fnat_checks(ctx)
     cwd = os.getcwd()
     os.chdir(ctx.tmpdir())
     try:
